@@ -102,7 +102,7 @@ def gen(rng, fam):
             for i in range(rng.choice([1, 1, 2, 3])):
                 nxt = rng.choice(starts[1:])["t"]
                 back = rng.choice([rng.uniform(0, 2 * dmax), rng.uniform(0, 4 * dmax), rng.uniform(0, hb)])
-                submits.append({"t": round(max(t0 + 2 * dmax, nxt - back), 5), "mode": "leader", "node": 0, "cmd": f"e{i}"})
+                submits.append({"t": min(round(max(t0 + 2 * dmax, nxt - back), 5), last_start), "mode": "leader", "node": 0, "cmd": f"e{i}"})
             if len({s["t"] for s in submits}) < len(submits):
                 submits = submits[:1]
             submits.sort(key=lambda s: s["t"])
@@ -129,7 +129,7 @@ def gen(rng, fam):
         tc = t0 + rng.uniform(0, 0.5 * dmax)
         for i in range(rng.randint(2, 6)):
             submits.append({"t": round(tc, 5), "mode": "leader", "node": 0, "cmd": f"c{i}"})
-            tc += 2 * dmax + rng.uniform(0, dmax)
+            tc += 2 * dmax + 1e-4 + rng.uniform(0, dmax)   # > 2 dmax also after rounding to 1e-5
         quiet = rng.random() < 0.5
         if quiet:
             # the node campaigns once more right after its last command (within one heartbeat interval, i.e. between its own
@@ -169,6 +169,9 @@ def gen(rng, fam):
             # ml-live-jitter judges liveness only: reordering inside the delay bound is not a fault, and the recorded
             # Multi/Flexible safety findings that reordering triggers must not end the run before liveness is judged
             "defer_fine": klass in ("ml-live-jitter", "ml-pingpong", "ml-recampaign") or (klass != "ml-live" and rng.random() < 0.3)}
+
+
+EPS = 2e-5   # scenario times are quantised to 1e-5
 
 
 def _validate(sc):
@@ -218,9 +221,9 @@ def _validate(sc):
         subs = sorted(s["t"] for s in sc.get("submits", []))
         if not sc.get("defer_fine") or not subs or any(s["mode"] != "leader" for s in sc["submits"]):
             raise InvalidScenario("ml-recampaign: liveness-only (deferred) mode, commands for the leader")
-        if any(b - a < 2 * dmax for a, b in zip(subs, subs[1:])):
+        if any(b - a < 2 * dmax - EPS for a, b in zip(subs, subs[1:])):
             raise InvalidScenario("ml-recampaign: one command in flight at a time")
-        if sc["horizon"] < max(subs + [max(s["t"] for s in sc["starts"]) + 4 * dmax]) + 2 * sc["hb"] + 12 * dmax:
+        if sc["horizon"] < max(subs + [max(s["t"] for s in sc["starts"]) + 4 * dmax]) + 2 * sc["hb"] + 12 * dmax - EPS:
             raise InvalidScenario("liveness horizon too short")
     if k == "ml-pingpong":
         tail = [s for s in sc.get("submits", []) if s.get("tail")]
@@ -229,22 +232,22 @@ def _validate(sc):
         if sc.get("quiet_tail"):
             if not sc.get("defer_fine") or not sc.get("submits") or tail or any(s["mode"] != "leader" for s in sc["submits"]):
                 raise InvalidScenario("ml-pingpong quiet: liveness-only mode, commands for the leader, none in the tail")
-            if max(s["t"] for s in sc["submits"]) > last_start or sc["horizon"] < last_start + 4 * dmax + 2 * sc["hb"] + 12 * dmax:
+            if max(s["t"] for s in sc["submits"]) > last_start + EPS or sc["horizon"] < last_start + 4 * dmax + 2 * sc["hb"] + 12 * dmax - EPS:
                 raise InvalidScenario("ml-pingpong quiet: commands before the last hand-over, horizon long enough")
         else:
             if not sc.get("defer_fine") or not tail or any(s["mode"] != "leader" for s in tail):
                 raise InvalidScenario("ml-pingpong: liveness-only (deferred) mode with tail commands for the leader")
-            if min(s["t"] for s in tail) < last_start + 4 * dmax:
+            if min(s["t"] for s in tail) < last_start + 4 * dmax - EPS:
                 raise InvalidScenario("ml-pingpong: tail commands come after the last leader is established")
-            if sc["horizon"] < max(s["t"] for s in tail) + 2 * sc["hb"] + 12 * dmax:
+            if sc["horizon"] < max(s["t"] for s in tail) + 2 * sc["hb"] + 12 * dmax - EPS:
                 raise InvalidScenario("liveness horizon too short")
     if k in LIVE:
         if any(s["mode"] != "leader" for s in sc.get("submits", [])) or not sc.get("submits") or len(sc["starts"]) != 1:
             raise InvalidScenario("liveness class: one start, commands go to the leader")
         dmax = max_delay(sc["profile"], sc.get("per_link"))
-        if min(s["t"] for s in sc["submits"]) < sc["starts"][0]["t"] + 4 * dmax:
+        if min(s["t"] for s in sc["submits"]) < sc["starts"][0]["t"] + 4 * dmax - EPS:
             raise InvalidScenario("liveness class: submit after the leader is established")
-        if sc["horizon"] < max(s["t"] for s in sc["submits"]) + 2 * sc["hb"] + 12 * dmax:
+        if sc["horizon"] < max(s["t"] for s in sc["submits"]) + 2 * sc["hb"] + 12 * dmax - EPS:
             raise InvalidScenario("liveness horizon too short")
 
 
